@@ -113,7 +113,15 @@ type randSource struct {
 	mixed bool
 }
 
+// a call that keeps asking for random bytes without consuming any (zero-size reads) is cut off
+var errRandSpin = errors.New("random source: too many reads")
+
+const randMaxCalls = 1 << 12
+
 func (s *randSource) ReadRandom(buf []byte) error {
+	if s.calls >= randMaxCalls {
+		return errRandSpin
+	}
 	if len(buf) > len(s.src)-s.pos {
 		return errRandExhausted
 	}
@@ -142,6 +150,10 @@ func randDirect(ty string, modulo *big.Int, src []byte) (res string) {
 			if e, ok := r.(error); ok {
 				if errors.Is(e, errRandExhausted) {
 					res = "exhausted:" + strconv.Itoa(gen.calls)
+					return
+				}
+				if errors.Is(e, errRandSpin) {
+					res = "spin"
 					return
 				}
 				if _, isUser := e.(cerrors.DefaultUserError); isUser {
@@ -181,6 +193,9 @@ func randScript(ty string, modulo *big.Int, src []byte, useVM bool) string {
 	case "external":
 		if errors.Is(out.Err, errRandExhausted) {
 			return "exhausted:" + strconv.Itoa(gen.calls)
+		}
+		if errors.Is(out.Err, errRandSpin) {
+			return "spin"
 		}
 		return "err-external"
 	default:
@@ -225,7 +240,7 @@ func execRand(op []string) string {
 			func() {
 				defer func() {
 					if r := recover(); r != nil {
-						if e, ok := r.(error); ok && errors.Is(e, errRandExhausted) {
+						if e, ok := r.(error); ok && (errors.Is(e, errRandExhausted) || errors.Is(e, errRandSpin)) {
 							exh++
 						} else {
 							bad++
